@@ -94,6 +94,7 @@ static _Bool inv_B(const bucket_t* B, int maxchain) {
 
 /* ------------------------------------------------------------------ monitors: the writer GUARANTEE the lock-free reader relies on.
  * Kept cheap: address classification by comparison with concrete addresses, sticky flags, no list walks. */
+extern _Bool gi_on; extern unsigned gi_bucket_stores; extern bstate_t gi_bucket_stored; extern uint64_t gi_bucket_store_clock, gi_rl_load_clock, gi_rl_load_val; extern int gi_rl_load_order;
 extern unsigned lk_cas_ok_count, lk_stores; extern _Bool lk_on; extern bstate_t lk_expected, lk_desired; extern int lk_order;   /* lock_bucket monitor (harness.c) */
 _Bool mon_on; bstate_t mon_prev_state; uint32_t mon_version0; _Bool chain0[POOL];
 _Bool mon_bad_slot_store, mon_bad_state_step, mon_bad_item_store, mon_bad_order, mon_lock_dropped;
@@ -122,6 +123,7 @@ static void mon_unlink_check(bucket_t* B) {       /* after a store to head / nex
 }
 static void mon_store(void* addr, uint64_t v, int o) {
   if (lk_on) lk_stores++;
+  if (gi_on && addr == (void*)&g_B->state) { gi_bucket_stores++; gi_bucket_stored = (bstate_t)v; gi_bucket_store_clock = xv_clock; }
   if (!mon_on) return;
   bucket_t* B = g_B;
   if (addr == (void*)&B->state) {
@@ -168,6 +170,7 @@ static void rd_reset(void) {
   rd_key_clock = rd_val_clock = rd_ptr_clock = rd_state1_clock = rd_state_last_clock = 0;
 }
 static void mon_load(void* addr, uint64_t v, int o) {
+  if (gi_on && addr == (void*)&g_map.resize_lock) { gi_rl_load_clock = xv_clock; gi_rl_load_val = v; gi_rl_load_order = o; }
   if (!rd_on) return;
   bucket_t* B = g_B;
   if (addr == (void*)&B->state) {
@@ -185,6 +188,11 @@ static void mon_load(void* addr, uint64_t v, int o) {
     if (addr == (void*)&x->value) { rd_val_item = NSLOT + p; rd_val_clock = xv_clock; rd_val = v; rd_val_order = o; return; }
     if (addr == (void*)&x->next) { rd_ptr_clock = xv_clock; rd_ptr_val = v; rd_ptr_order = o; rd_ptr_seen = 1; return; }
   }
+}
+/* grow monitor: the exchange on resize_lock, the store that releases the bucket, the loads of resize_lock */
+_Bool gi_on; unsigned gi_xchg_count, gi_bucket_stores; uint64_t gi_xchg_old, gi_xchg_clock, gi_bucket_store_clock, gi_rl_load_clock, gi_rl_load_val; bstate_t gi_bucket_stored; int gi_rl_load_order;
+static void mon_rmw(void* addr, uint64_t oldv, uint64_t newv, int o) {
+  if (gi_on && addr == (void*)&g_map.resize_lock) { gi_xchg_count++; gi_xchg_old = oldv; gi_xchg_clock = xv_clock; }
 }
 static void mon_cas(void* addr, uint64_t e, uint64_t d, _Bool ok, int o) {
   if (lk_on && addr == (void*)&g_B->state && ok) { lk_cas_ok_count++; lk_expected = (bstate_t)e; lk_desired = (bstate_t)d; lk_order = o; }
